@@ -3,6 +3,7 @@ import SimilarVerif.Lemmas.Replace
 import SimilarVerif.Model.Common
 import SimilarVerif.Lemmas.Capture
 import SimilarVerif.Lemmas.MyersTotal
+import SimilarVerif.Lemmas.Identical
 /-!
 # C02 — captured ops form a valid edit script old → new; ratio in [0,1], 1 iff equal
 
@@ -123,5 +124,20 @@ theorem capture_patience_valid_uncond (E : Env) (repair : Bool) (os oe ns ne : N
     CaptureP.capture_patience_valid E (MyersT.snake_in_box E) repair os oe ns ne
       (fun _ _ _ _ => MyersT.snake_in_box _) w ho hn hb ops w' hc
   exact ⟨hw, ha⟩
+
+/-- **Identical inputs give only Equal ops** — every algorithm, every clock, both settings of the repair
+switch, reversed/empty ranges included: if the two ranges have the same length `n` and agree position by
+position, `capture_diff_deadline` returns exactly `[Equal(os, ns, n)]` (nothing at all for `n = 0`), never
+panics, and never consults the deadline.  For Patience the same-side tests must be consistent with the cross
+tests (`EqPattern`: they come from two label sequences); without that an `Env` exists on which Patience
+reports `[Equal 0 0 2, Replace 2 1 2 1]` for diagonal-equal ranges (recorded in Lemmas/Identical.lean). -/
+theorem identical_inputs_only_equal : type_of% @IdentQ.captureDiff_identical := @IdentQ.captureDiff_identical
+
+/-- Myers and LCS: no hypothesis on same-side tests, exact comparison count `n` -/
+theorem identical_inputs_only_equal_myers_lcs : type_of% @IdentQ.captureDiff_ident := @IdentQ.captureDiff_ident
+
+/-- the raw callback streams for identical inputs: one `equal` (Myers, LCS), a list of `equal`s (Patience) -/
+theorem identical_inputs_raw : type_of% @IdentQ.rawTrace_ident := @IdentQ.rawTrace_ident
+theorem identical_inputs_raw_patience : type_of% @IdentQ.rawTrace_patience_ident := @IdentQ.rawTrace_patience_ident
 
 end SimilarVerif.C02
